@@ -321,3 +321,44 @@ pub fn random_spec(rng: &mut crate::rng::Rng, mode: Mode, comp: Comp, max_items:
     }
     Spec { mode, comp, items, extra_packs }
 }
+
+/// for every content pack found in every file of `dir`, write the decompressed compressed clusters
+/// under `decdir/<uuid hex>/cluster<i>.dec` (input of the Lean decoder)
+pub fn dump_all_clusters(dir: &Path, decdir: &Path) {
+    let rd = match std::fs::read_dir(dir) {
+        Ok(r) => r,
+        Err(_) => return,
+    };
+    for e in rd.flatten() {
+        let p = e.path();
+        if !p.is_file() {
+            continue;
+        }
+        let bytes = match std::fs::read(&p) {
+            Ok(b) => b,
+            Err(_) => continue,
+        };
+        // header at 0 or mirrored tail
+        let mut packs = packs_in_file(&bytes);
+        if packs.is_empty() && bytes.len() >= 128 {
+            let mut tail: Vec<u8> = bytes[bytes.len() - 64..].to_vec();
+            tail.reverse();
+            if &tail[0..3] == b"jbk" {
+                let size = le(&tail[32..40]) as usize;
+                if size <= bytes.len() {
+                    let origin = bytes.len() - size;
+                    packs = packs_in_file(&bytes[origin..]).into_iter().map(|mut p| { p.origin += origin; p }).collect();
+                }
+            }
+        }
+        for pk in packs {
+            if pk.kind == b'c' && pk.origin + pk.size <= bytes.len() {
+                let pack = &bytes[pk.origin..pk.origin + pk.size];
+                if let Some(dec) = crate::cpdec::decode(pack) {
+                    let d = decdir.join(crate::out::hex(&pk.uuid));
+                    crate::cpdec::dump_clusters(pack, &dec, &d);
+                }
+            }
+        }
+    }
+}
